@@ -689,6 +689,10 @@ class Extractor:
         cands = {}
         fns = []
         for it in items:
+            if it.kind == 'macro_rules' and self.cfg_keep(it):
+                try: self.register_macro(toks, it)          # call sites may sit inside macro bodies (R1 expands them first)
+                except Exception: pass
+        for it in items:
             if not self.cfg_keep(it): continue
             if it.kind == 'fn': fns.append((it, ''))
             elif it.kind == 'impl':
